@@ -172,7 +172,7 @@ def check_doc(doc):
     return out
 
 
-ZERO_WIDTH = {"\u200b", "\u0301"}
+ZERO_WIDTH = {"\u200b", "\u0301", "\ufeff"}
 
 
 def _bg_sequence(items, expected):
